@@ -30,7 +30,7 @@ def _behaviours(r):
     return out
 
 
-def _judge(ctx, cases, prop, origin):
+def _judge(ctx, cases, prop, origin, max_skip_ratio=None):
     """Run the real code on the cases, have TLC judge the records, report rejections."""
     recs = []
     by_id = {}
@@ -50,7 +50,7 @@ def _judge(ctx, cases, prop, origin):
         ctx.sample({"origin": origin, "case": c0["id"], "res": c0["res"],
                     "chart_body": nt.render_body(c0["body"])[:12],
                     "observed_notes": by_id[c0["id"]][1]["notes"][:3]})
-    for rid, p, clause in ctx.validate(recs):
+    for rid, p, clause in ctx.validate(recs, max_skip_ratio=max_skip_ratio):
         c, rec = by_id[rid]
         ctx.violation(clause, {"kind": "nt", "case": c, "text": nt.case_text(c), "record": rec,
                                "origin": origin}, key=clause)
